@@ -90,7 +90,12 @@ def gen_history(rnd: random.Random, flavor: dict) -> dict:
             items = [m, m2]
             if rnd.random() < 0.3:
                 items.append(copy.deepcopy(m))
-            return {"type": "sum", "items": items}, True
+            spec = {"type": "sum", "items": items}
+            if len(items) > 2 and rnd.random() < 0.5:
+                spec["assoc"] = "right"  # m + (m' + m) instead of (m + m') + m
+            elif rnd.random() < 0.15:
+                spec = {"type": "sum", "items": [m, {"type": "mul", "item": m2, "n": 2}], "assoc": "right"}  # m + m' * 2
+            return spec, True
         return m, False
 
     if driver == "GrandCanonical":
